@@ -84,15 +84,17 @@ def update(rep, fn, w, order, lk):
         if ph.ty.is_ptr:
             roles['p'] = ph.res
             return Ptr(init.base, Off(0, [(('lin', 'o_p'), 1)]))
-        if isinstance(init, Lin):
+        if isinstance(init, Lin) or (isinstance(init, BV) and len(init.bits) == 64 and init.value() is not None):
+            # a count starting at nbyte, or an index starting at a constant
             roles['n'] = ph.res
             return Lin.sym('k', 64)
         roles['v'] = ph.res
         return BV.sym('s', ph.ty.a)
     tx = looptx.transformer(fn, lk, args, dom, bind)
     loc = fn.loc(tx.header.instrs[0])
-    if set(roles) != {'p', 'n', 'v'} or len(tx.phis) != 3 or len(tx.backs) != 1:
-        raise Unsupported('loop of %s does not have the (pointer, count, value) shape' % fn.name)
+    indexed = set(roles) == {'n', 'v'} and len(tx.phis) == 2 and len(tx.backs) == 1
+    if not indexed and (set(roles) != {'p', 'n', 'v'} or len(tx.phis) != 3 or len(tx.backs) != 1):
+        raise Unsupported('loop of %s does not have the (pointer, count, value) or the (index, value) shape' % fn.name)
     s1, nv = tx.backs[0]
     S = tx.sym[roles['v']]
     out = nv[roles['v']]
@@ -105,7 +107,7 @@ def update(rep, fn, w, order, lk):
         raise Unsupported('update step does not read exactly one data byte')
     B = byte_syms[0][1]
     boff = dom.tables[list(dom.tables)[0]]
-    curs = tx.sym[roles['p']].off
+    curs = Off(0, [(('lin', 'k'), 1)]) if indexed else tx.sym[roles['p']].off
     if dom.off_key(byte_syms[0][0][1]) != dom.off_key(curs):
         probs.append('data byte is read at %s, not at the cursor' % (byte_syms[0][0][1],))
     # table look-up
@@ -154,23 +156,35 @@ def update(rep, fn, w, order, lk):
     fp = []
     if tx.init[roles['v']] != V0:
         fp.append('accumulator does not start as the value parameter (%r)' % (tx.init[roles['v']],))
-    ip = tx.init[roles['p']]
-    if not (isinstance(ip, Ptr) and ip.base == 'data' and ip.off == 0):
-        fp.append('cursor does not start at pdata')
-    if tx.init[roles['n']] != Lin.sym('n', 64):
-        fp.append('count does not start as nbyte')
-    np_ = nv[roles['p']]
-    if not (isinstance(np_, Ptr) and dom.off_key(np_.off) == dom.off_key(Off(1, [(('lin', 'o_p'), 1)]))):
-        fp.append('cursor advances to %r, expected +1' % (np_,))
-    if nv[roles['n']] != Lin.sym('k', 64).add(-1):
-        fp.append('count becomes %r, expected count-1' % (nv[roles['n']],))
     g = s1.pc
-    if not (len(g) == 1 and isinstance(g[0], bit.Cond) and g[0].pred == 'eq' or g and isinstance(g[0], bit.Cond) and g[0].pred == 'ne'):
-        pass
-    okg = len(g) == 1 and isinstance(g[0], bit.Cond) and isinstance(g[0].a, Lin) and g[0].a == Lin.sym('k', 64) and (
-        (g[0].pred == 'ne' and g[0].pos) or (g[0].pred == 'eq' and not g[0].pos)) and dom.concrete(g[0].b) == 0
-    if not okg:
-        fp.append('loop guard %s, expected count != 0' % (g,))
+    if indexed:
+        # for (i = 0; i != nbyte; ++i) ... data[i]
+        if dom.concrete(tx.init[roles['n']]) != 0:
+            fp.append('index does not start at 0 (%r)' % (tx.init[roles['n']],))
+        if nv[roles['n']] != Lin.sym('k', 64).add(1):
+            fp.append('index becomes %r, expected index+1' % (nv[roles['n']],))
+        c0 = g[0] if len(g) == 1 and isinstance(g[0], bit.Cond) else None
+        ne = c0 is not None and ((c0.pred == 'ne' and c0.pos) or (c0.pred == 'eq' and not c0.pos))
+        lt = c0 is not None and ((c0.pred == 'ult' and c0.pos) or (c0.pred == 'uge' and not c0.pos))
+        K, N = Lin.sym('k', 64), Lin.sym('n', 64)
+        okg = c0 is not None and ((ne and ((c0.a == K and c0.b == N) or (c0.a == N and c0.b == K))) or (lt and c0.a == K and c0.b == N))
+        if not okg:
+            fp.append('loop guard %s, expected index != nbyte' % (g,))
+    else:
+        ip = tx.init[roles['p']]
+        if not (isinstance(ip, Ptr) and ip.base == 'data' and ip.off == 0):
+            fp.append('cursor does not start at pdata')
+        if tx.init[roles['n']] != Lin.sym('n', 64):
+            fp.append('count does not start as nbyte')
+        np_ = nv[roles['p']]
+        if not (isinstance(np_, Ptr) and dom.off_key(np_.off) == dom.off_key(Off(1, [(('lin', 'o_p'), 1)]))):
+            fp.append('cursor advances to %r, expected +1' % (np_,))
+        if nv[roles['n']] != Lin.sym('k', 64).add(-1):
+            fp.append('count becomes %r, expected count-1' % (nv[roles['n']],))
+        okg = len(g) == 1 and isinstance(g[0], bit.Cond) and isinstance(g[0].a, Lin) and g[0].a == Lin.sym('k', 64) and (
+            (g[0].pred == 'ne' and g[0].pos) or (g[0].pred == 'eq' and not g[0].pos)) and dom.concrete(g[0].b) == 0
+        if not okg:
+            fp.append('loop guard %s, expected count != 0' % (g,))
     if not tx.finals or len(tx.finals) != 1 or tx.finals[0][1] != S:
         fp.append('the returned value is not the accumulator')
     if any(k[0] != 'alloca' for k in s1.store if not str(k[0]).startswith('alloca')):
